@@ -42,6 +42,9 @@ Inductive state := State {
   s_children : list state;         (* NestedState.states *)
   s_events : events }.             (* NestedState.events: transitions declared in this scope *)
 
+(* the `queued` option: False, True, or 'model' (asyncio machines: one event queue per model) *)
+Inductive qmode := QFalse | QTrue | QModel.
+
 Inductive mstate := MS (p : list string) | ML (l : list mstate).
 Record model := mkModel { md_state : mstate; md_class : string }.
 
@@ -51,7 +54,7 @@ Record machine := mkMachine {
   m_bsc : list string; m_asc : list string; m_pe : list string; m_fe : list string;
   m_oe : list string; m_of : list string;
   m_send : bool; m_auto : bool; m_attr : string; m_override : bool;
-  m_ignore : option bool; m_queued : bool;
+  m_ignore : option bool; m_queued : qmode;
   m_models : list model }.
 
 (* ------------------------------------------------------------------ the markup dict *)
@@ -78,7 +81,7 @@ Record markup := mkMarkup {
   k_bsc : list string; k_asc : list string; k_pe : list string; k_fe : list string;
   k_oe : list string; k_of : list string;
   k_send : bool; k_auto : bool; k_attr : string; k_override : bool;
-  k_ignore : option bool; k_queued : bool;
+  k_ignore : option bool; k_queued : qmode;
   k_models : list kmodel;
   k_initial : init; k_name : option string;
   k_transitions : list ktrans; k_states : list kstate }.
